@@ -300,9 +300,12 @@ impl<const N: usize> ScenN<N> {
             Err(_) => return,
         };
         let arg: usize = parts.get(2).and_then(|x| x.parse().ok()).unwrap_or(0);
-        let recs = Self::parse_blob(&bytes);
+        let recs = Self::parse_blob_full(&bytes);
         match parts[1] {
             "magic" => {
+                if bytes.is_empty() {
+                    return;
+                }
                 bytes[0] ^= 0xff;
             }
             "hflip" => {
@@ -734,10 +737,15 @@ impl<const N: usize> ScenN<N> {
         }
     }
 
+    /// like `parse_blob`, but only the records that lie completely inside the image
+    fn parse_blob_full(bytes: &[u8]) -> Vec<(usize, usize, usize, usize)> {
+        Self::parse_blob(bytes).into_iter().filter(|(s0, h, m, d)| s0 + h + m + d <= bytes.len()).collect()
+    }
+
     /// (key, timestamp, flags, data len) of every record of a blob image, parsed independently of pearl
     fn parse_records(bytes: &[u8]) -> Vec<(Vec<u8>, u64, u8, usize)> {
         let mut out = Vec::new();
-        for (start, hsz, _ms, ds) in Self::parse_blob(bytes) {
+        for (start, hsz, _ms, ds) in Self::parse_blob_full(bytes) {
             let klen = hsz - 57;
             if start + hsz > bytes.len() {
                 break;
@@ -789,7 +797,7 @@ impl<const N: usize> ScenN<N> {
         'outer: for bp in &blobs {
             let bname = bp.file_name().unwrap().to_string_lossy().to_string();
             let bytes = std::fs::read(bp).unwrap_or_default();
-            let layout = Self::parse_blob(&bytes);
+            let layout = Self::parse_blob_full(&bytes);
             let recs = Self::parse_records(&bytes);
             // 1. the tools accept what the storage produced
             n += 1;
@@ -1036,7 +1044,7 @@ impl<const N: usize> ScenN<N> {
         let mut cands: Vec<(PathBuf, usize, Vec<u8>)> = Vec::new();
         for bp in &blobs {
             let bytes = std::fs::read(bp).unwrap_or_default();
-            for (start, hsz, ms, ds) in Self::parse_blob(&bytes) {
+            for (start, hsz, ms, ds) in Self::parse_blob_full(&bytes) {
                 if ds == 0 {
                     continue;
                 }
